@@ -135,6 +135,9 @@ def run(tier: str, seed: int) -> int:
     traces = float_resize_traces(rng, ntr)
     validate_traces(chk, traces, site="float-resize-history")
     canary_trace(chk, [t for t in traces if len(t["ev"]) > 3])
+    # resize of a record that is uninitialised but carries a restored (non-zero) write position
+    from .record_persist import run_unready_resize
+    run_unready_resize(chk, tier, rng)
     return chk.finish()
 
 
